@@ -927,6 +927,13 @@ int cp_rsa_ver(uint8_t *sig, size_t sig_len, const uint8_t *msg, size_t msg_len,
 	}
 #endif
 
+	/* A precomputed hash value has the length of the hash function output. */
+	if (hash && msg_len != RLC_MD_LEN) {
+		RLC_FREE(h1);
+		RLC_FREE(h2);
+		return 0;
+	}
+
 	bn_null(m);
 	bn_null(eb);
 
